@@ -9,7 +9,7 @@ from vlib.runner import fail, machine_run, MachineMixin
 LEVEL = "exploration"
 RULE = ("Hypothesis RuleBasedStateMachine over ONE Evolvent object (N in 1..5, density m with N*m<=50, generated "
         "box): rules image(x), inverse(y), preimages(y), set_bounds(lower, upper), shift_bounds (new bounds computed from the "
-        "object's own bound arrays, one of them handed back as it is); integer-valued constructor bounds are written as "
+        "object's own bound arrays, one of them handed back as it is), nudge_bounds (a bound moved in its 6th..16th significant digit); integer-valued constructor bounds are written as "
         "Python ints in half of the cases; x from the C07 generators and from "
         "previously used arguments, y uniform in the box / on faces / integer-valued, supplied as float ndarray, float "
         "list or int list. Oracle after every rule: the result is bit-equal to that of a brand-new Evolvent with the "
